@@ -92,6 +92,7 @@ var _ utils.PriorityQueue
 //@ requires [shards] wfShards(this)
 //@ requires [stored] wfStored(this)
 //@ ensures [found] live(this, id) ==> isnil(err) && ret0 == vertexOf(this, id) && ret0 != nil && ret0.level >= 0 && ret0.level < 2147483648
+//@ ensures [existing] !fresh(ret0)
 //@ ensures [absent] !live(this, id) ==> err == ItemNotFoundError && ret0 == nil
 
 //@ func (*index.Hnsw).Len
